@@ -72,6 +72,23 @@ def cfgOn (cfg : Json) : Bool :=
 
 def notCompared : List String := hopNames ++ forwardingNames ++ framingNames
 
+/-- "the upstream receives the client's … end-to-end headers unchanged", on the header block the client sent
+(canonical names) and the one the upstream recorded: equal as multisets of lines once hop-by-hop headers (the fixed
+set and what `Connection` lists), the forwarding headers (C08), the framing headers and the configured request-id
+header are set aside. User-Agent: Go's transport can send one non-empty value only; an empty or repeated one is not
+counted. `Accept-Encoding: gzip` added by the Go transport for its own hop when the client named none is not counted. -/
+def headerSentence (reqid : String) (isWS : Bool) (method : String) (hdrs upHdrAll : List (String × String)) : Bool :=
+  let dropId (l : List (String × String)) : List (String × String) := if reqid = "" then l else l.filter (·.1 ≠ reqid)
+  let listed := if isWS then [] else connectionListed hdrs
+  let uaNorm (l : List (String × String)) : List (String × String) :=
+    let ua := headerGet l "User-Agent"
+    (l.filter (·.1 ≠ "User-Agent")) ++ (if ua ≠ "" then [("User-Agent", ua)] else [])
+  let clientE2E := dropId (uaNorm (endToEnd listed hdrs))
+  let aeOwn := !isWS && headerGet hdrs "Accept-Encoding" = "" && headerGet hdrs "Range" = "" && method ≠ "HEAD"
+  let upE2E0 := endToEnd [] upHdrAll
+  let upE2E := dropId (uaNorm (if aeOwn then upE2E0.erase ("Accept-Encoding", "gzip") else upE2E0))
+  sameMultiset clientE2E upE2E
+
 def urlH : Handler := fun inp impl => do
   let strip ← bytes inp "strip"
   let prepend ← bytes inp "prepend"
@@ -133,20 +150,10 @@ def urlH : Handler := fun inp impl => do
     let upBsha := (up.getObjValAs? String "bsha").toOption.getD "?"
     let (upath, uquery) := splitQuery upURI
     let isWS := h == .ws
-    let listed := if isWS then [] else connectionListed hdrs
-    -- User-Agent: Go's transport can send one non-empty value only; an empty or repeated one is not counted
-    let uaNorm (l : List (String × String)) : List (String × String) :=
-      let ua := headerGet l "User-Agent"
-      (l.filter (·.1 ≠ "User-Agent")) ++ (if ua ≠ "" then [("User-Agent", ua)] else [])
-    let clientE2E := dropId (uaNorm (endToEnd listed hdrs))
-    -- Accept-Encoding: gzip added by the Go transport for its own hop when the client named none is not counted
-    let aeOwn := !isWS && headerGet hdrs "Accept-Encoding" = "" && headerGet hdrs "Range" = "" && method ≠ "HEAD"
-    let upE2E0 := endToEnd [] upHdrAll
-    let upE2E := dropId (uaNorm (if aeOwn then upE2E0.erase ("Accept-Encoding", "gzip") else upE2E0))
     let sPath := pathOK strip prepend client upath
     let sQuery := uquery.getD [] = expectedQuery tq query
     let sHost := upHost = expectedHost hostOpt "UPSTREAM" host
-    let sHdr := sameMultiset clientE2E upE2E
+    let sHdr := headerSentence reqid isWS method hdrs upHdrAll
     let sBody := upBlen = (body.length : Int) && upBsha = sentSha
     let spec := implHits == 1 && upMethod = method && sPath && sQuery && sHost && sHdr && sBody
     let stripApplies := strip ≠ [] && strip.isPrefixOf path
@@ -251,11 +258,17 @@ def bodyH : Handler := fun inp impl => do
   let trailersOK := sameMultiset (tr "rep_trailer") (tr "got_trailer")
   let hasTrailer := !(tr "rep_trailer").isEmpty
   let spec := spec && trailersOK
+  -- "body bytes unchanged" has one licensed exception, the gzip coding for a client that accepts it: a reply coded
+  -- by fabio to a client whose Accept-Encoding does not make gzip acceptable (RFC 9110 §12.5.3 reading,
+  -- `C07Spec.gzipAcceptable` — not the walk of `acceptsGzip`) is an altered body
+  let aeOK := !byFabio || gzipAcceptable ae
+  let spec := spec && aeOK
   let big := reqlen > 65536 || (impl.getObjValAs? Int "rep_len").toOption.getD 0 > 65536
   let tag := (if chunks.size > 0 then "req-chunked" else if reqlen > 0 then "req-cl" else "req-empty") ++
              (if rchunked then "/rep-chunked" else "/rep-cl") ++ (if big then "/big" else "") ++
              (if announced.isEmpty then "" else "/1xx") ++ (if expect then "/expect" else "") ++
              (if gz then (if byFabio then "/gz-encoded" else "/gz") else "") ++
+             (if gz && (ae.toList.contains '*' || ae.toList.contains ';') then "/ae-weighted" else "") ++
              (if rceAny then "/ce" else "") ++ (if hasTrailer then "/trailer" else "") ++
              (if "application/x-www-form-urlencoded".toList.isPrefixOf ctype.toList then "/form" else "") ++
              (if cfgOn cfg then "/cfg" else "")
@@ -346,6 +359,31 @@ def escapeH : Handler := fun inp impl => do
 
 /-! ### c07.serve: the unified model of `ServeHTTP` -/
 
+/-- the header block the upstream receives for a forwarded request of the unified model (framing headers apart):
+on the http path what `httputil.ReverseProxy` makes of the headers `addHeaders` left (`C08.reverseProxy`: hop-by-hop
+removal, Upgrade put back, peer appended to X-Forwarded-For — the peer of the harness is 127.0.0.1) and what the
+transport adds for its own hop (`Accept-Encoding: gzip`); on the websocket path the block as it is. User-Agent: only
+the first value, and only when it is non-empty (the director suppresses Go's default). -/
+def upstreamBlock (via : Via) (method : String) (h : Fabio.Model.C08.Headers) : List (String × String) :=
+  let h := if via == .http then Fabio.Model.C08.reverseProxy "127.0.0.1".toList h else h
+  let ps : List (String × String) := h.flatMap fun kv => kv.2.map fun v => (String.ofList kv.1, String.ofList v)
+  let ua := headerGet ps "User-Agent"
+  let keep := ps.filter fun kv => !framingNames.contains kv.1 && kv.1 ≠ "User-Agent"
+  let keep := if ua ≠ "" then keep ++ [("User-Agent", ua)] else keep
+  if via == .http && headerGet ps "Accept-Encoding" = "" && headerGet ps "Range" = "" && method ≠ "HEAD"
+  then keep ++ [("Accept-Encoding", "gzip")] else keep
+
+/-- `Connection` is the framing of the hop itself: on the websocket path `Request.Write` repeats `close` in front
+of the client's lines when the first line does not carry it (net/http, `transferWriter`). What both sides must agree
+on is the set of tokens (that is what names further hop-by-hop headers): the lines are replaced by one line holding
+the lower-cased tokens without repetitions, sorted. -/
+def normConnection (l : List (String × String)) : List (String × String) :=
+  let toks := (l.filter (·.1 = "Connection")).flatMap fun kv =>
+    ((splitComma kv.2.toList).map trimOWS).filterMap fun t => if t = [] then none else some (String.ofList (t.map Fabio.lowerChar))
+  let uniq := toks.foldl (fun acc t => if acc.contains t then acc else acc ++ [t]) []
+  let sorted := uniq.toArray.qsort (· < ·) |>.toList
+  (l.filter (·.1 ≠ "Connection")) ++ (if sorted.isEmpty then [] else [("Connection", ", ".intercalate sorted)])
+
 open Fabio.Model in
 def serveH : Handler := fun inp impl => do
   let routes ← arr inp "routes"
@@ -380,7 +418,7 @@ def serveH : Handler := fun inp impl => do
     | _ => none
   let wire : List (List Char × Option (List Char)) :=
     (hdr0.map fun kv => (kv.1.toList, some kv.2.toList)) ++
-    (if credOpt.isSome then [("Authorization".toList, some "Basic".toList)] else []) ++
+    (if credOpt.isSome then [("Authorization".toList, some (optStr inp "authz").toList)] else []) ++
     (if ws then [("Upgrade".toList, some "websocket".toList), ("Connection".toList, some "Upgrade".toList)] else [])
   let cfg : ServeHTTP.Cfg :=
     { lookup := { globMatch := C03.globLib, pathMatch := fun uri p => p.isPrefixOf uri,
@@ -395,6 +433,7 @@ def serveH : Handler := fun inp impl => do
   let iStatus := (impl.getObjValAs? Int "status").toOption.getD (-1)
   let iHits := (impl.getObjValAs? Int "hits").toOption.getD (-1)
   let up := g "up"
+  let upHdrAll ← if up.isNull then pure [] else kvPairs up "hdr"
   let iCls := if iHits == 1 then "forward" else if iStatus == 403 then "403" else if iStatus == 401 then "401"
     else if 300 ≤ iStatus && iStatus ≤ 399 then "redirect" else if iStatus == 500 then "500"
     else if iStatus == 400 then "bad-request" else "noroute"
@@ -407,9 +446,19 @@ def serveH : Handler := fun inp impl => do
           Json.mkObj [("method", (up.getObjVal? "method").toOption.getD Json.null),
                       ("uri", (up.getObjVal? "uri").toOption.getD Json.null),
                       ("host", (up.getObjVal? "host").toOption.getD Json.null),
-                      ("fwd", g "fwd")]
+                      ("fwd", g "fwd"),
+                      ("hdr", groupJson (normConnection (upHdrAll.filter fun kv => !framingNames.contains kv.1)))]
         else Json.null)]
-  let spec := (iHits == 1) == (iStatus == 200 || iStatus == 101) && iHits ≤ 1
+  -- the sentences on a forwarded request: the upstream is hit exactly when the client got its answer, and it
+  -- received the client's method and end-to-end headers (the credentials the auth gate judged included)
+  let clientHdrs : List (String × String) :=
+    (hdr0.map fun kv => (canonKey kv.1, kv.2)) ++
+    (if credOpt.isSome then [("Authorization", optStr inp "authz")] else []) ++
+    (if ws then [("Upgrade", "websocket"), ("Connection", "Upgrade")] else [])
+  let spec := (iHits == 1) == (iStatus == 200 || iStatus == 101) && iHits ≤ 1 &&
+    (iCls != "forward" ||
+      ((up.getObjValAs? String "method").toOption.getD "" == method &&
+       headerSentence "" (iStatus == 101) method clientHdrs upHdrAll))
   match C07.setPath client with
   | none =>
     let m := Json.mkObj [("cls", "bad-request"), ("status", (400 : Int)), ("location", Json.null), ("body", Json.null), ("up", Json.null)]
@@ -434,7 +483,8 @@ def serveH : Handler := fun inp impl => do
           let v := C08.get1 n.toList f.headers
           if v.isEmpty then none else some (n, Json.str (String.ofList v))
         Json.mkObj [("cls", "forward"), ("status", if f.via == .ws then (101 : Int) else 200), ("location", nul), ("body", nul),
-          ("up", Json.mkObj [("method", f.method), ("uri", jb f.url.requestURI), ("host", String.ofList f.host), ("fwd", Json.mkObj fwd)])]
+          ("up", Json.mkObj [("method", f.method), ("uri", jb f.url.requestURI), ("host", String.ofList f.host), ("fwd", Json.mkObj fwd),
+                             ("hdr", groupJson (normConnection (upstreamBlock f.via f.method f.headers)))])]
     let skipped := table.any fun kv => kv.2.any fun ro => ro.targets.any fun tg => ServeHTTP.skipFor cfg r tg
     let gated := decoded.any fun d => d.2.2.2.2.any fun kv => ["allow", "deny", "auth", "redirect"].contains kv.1
     let tag := out.cls ++ (match out with | .forward f => if f.via == .ws then "+ws" else "" | _ => "") ++
